@@ -57,6 +57,10 @@ def spec():
             "get": {"operationId": "listItems", "parameters": [_p("ids", "query", schema={"type": "array", "items": {"type": "string"}}), _p("sort", "query")],
                     "responses": {"200": ok}},
         },
+        # request bodies on methods that rarely carry one: the declared body still goes on the wire
+        "/bulk": {"delete": {"operationId": "bulkDelete", "requestBody": {"required": True, "content": {"application/json": {"schema": {"type": "array", "items": {"type": "string"}}}}},
+                             "responses": {"200": ok}},
+                  "get": {"operationId": "searchItems", "requestBody": {"required": True, "content": jitem}, "responses": {"200": ok}}},
         "/form": {"post": {"operationId": "sendForm", "requestBody": {"required": True, "content": {"application/x-www-form-urlencoded": {"schema": {"type": "object", "properties": {"a": {"type": "string"}}}}}},
                            "responses": {"200": ok}}},
         "/upload": {"post": {"operationId": "upload", "requestBody": {"required": True, "content": {"multipart/form-data": {"schema": {"type": "object", "properties": {"file": {"type": "string", "format": "binary"}}}}}},
@@ -92,6 +96,8 @@ OPS = {
     "create_item": dict(method="POST", path="/items", params=[("dry_run", "dryRun", "query", False, "bool")], body=("body", "json", "item"), status=201),
     "replace_tags": dict(method="PUT", path="/items", params=[], body=("body", "json", "strlist")),
     "list_items": dict(method="GET", path="/items", params=[("ids", "ids", "query", False, "strlist"), ("sort", "sort", "query", False, "str")], body=None),
+    "bulk_delete": dict(method="DELETE", path="/bulk", params=[], body=("body", "json", "strlist")),
+    "search_items": dict(method="GET", path="/bulk", params=[], body=("body", "json", "item")),
     "send_form": dict(method="POST", path="/form", params=[], body=("form_data", "data", "strdict")),
     "upload": dict(method="POST", path="/upload", params=[], body=("files", "files", "filedict")),
     "send_raw": dict(method="POST", path="/raw", params=[("n", "n", "query", False, "str")], body=("bytes_content", "data", "bytes")),
@@ -725,6 +731,10 @@ def specs(tier):
             out.append((MOD, "mk", (opname, 2)))
     for kind in "qhc":
         out.append((MOD, "mk_named", (kind, 1)))
+    # below the generated method: the bundled transport hands params / cookies / json / data to httpx unchanged, and a
+    # second request on the same transport carries nothing of the first (obligations of props/c17.py without auth plugins)
+    out.append(("props.c17", "mk", (0, "passthrough")))
+    out.append(("props.c17", "mk", (0, "history")))
     for n in (range(0, 4) if tier == "quick" else range(0, 6)):
         out.append((MOD, "mk_idem", (n,)))
     for n in (range(0, 5) if tier == "quick" else range(0, 7)):
